@@ -155,15 +155,20 @@ Record seedres := mks { sr_refuse : option why;   (* start refused (seed directo
                         sr_removed : bool;        (* unlink(path) succeeded *)
                         sr_keep : bool }.         (* seed name kept: a new seed is written at exit *)
 
-(* random.c _random_read_entropy_from_file + random_init + munged.c main *)
-Definition seed_step (force : bool) (id : ident) (tg : N) (o : fobs) (chain : list dstat) : seedres :=
+(* random.c _random_read_entropy_from_file + random_init + munged.c main;
+   can_remove = the process may remove names from the seed's directory *)
+Definition seed_step (force : bool) (id : ident) (tg : N) (can_remove : bool) (o : fobs) (chain : list dstat)
+  : seedres :=
   let v := dir_verdict FSeed o id tg chain in
   match v, force with
   | Insecure i r, false => mks (Some (WDir i r)) false false false false
   | _, _ =>
     if seed_blocks o then mks None true false false false else
     let '(bad, used) := seed_read id o in
-    let removed := bad && (o_symlink o || match o_stat o with Some s => negb (is_dir s) | None => false end) in
+    (* unlink(2) of the rejected seed: EISDIR on a directory, EACCES when the process may not write to the
+       directory that holds the name (a warning either way: the seed stays where it is, unused) *)
+    let removed := bad && can_remove
+                   && (o_symlink o || match o_stat o with Some s => negb (is_dir s) | None => false end) in
     mks None false used removed (match v with Secure => true | _ => false end)
   end.
 
@@ -207,10 +212,21 @@ Definition log_recipe := recipe_of bg_log.
 Definition e_absent : fobs := mko false None.
 Definition e_file (s : fstat) : fobs := mko false (Some s).
 
-(* unlink(2) removes the name — a symlink itself, never its target — and fails on a directory *)
-Definition unlink_fails (e : fobs) : bool :=
+(* what the process may do in the directory that holds the name: remove the name (write permission on the
+   directory and the sticky-bit rule), create a name (write permission).  uid 0 may both. *)
+Record dperm := mkp { p_remove : bool; p_create : bool }.
+Definition all_perm : dperm := mkp true true.
+
+Definition present (e : fobs) : bool :=
+  o_symlink e || match o_stat e with Some _ => true | None => false end.
+Definition is_dir_entry (e : fobs) : bool :=
   negb (o_symlink e) && match o_stat e with Some s => is_dir s | None => false end.
-Definition fs_unlink (e : fobs) : fobs := if unlink_fails e then e else e_absent.
+
+(* unlink(2) removes the name — a symlink itself, never its target.  It fails with an errno other than ENOENT
+   on a directory (EISDIR) and when the process may not remove names there (EACCES/EPERM) *)
+Definition unlink_fails (p : dperm) (e : fobs) : bool :=
+  is_dir_entry e || (present e && negb (p_remove p)).
+Definition fs_unlink (p : dperm) (e : fobs) : fobs := if unlink_fails p e then e else e_absent.
 
 (* write permission of the process on an existing file (Linux: the effective ids decide; uid 0 may always;
    the harness drops all supplementary groups) *)
@@ -220,13 +236,17 @@ Definition may_write (id : ident) (s : fstat) : bool :=
    else if f_gid s =? i_egid id then has (f_mode s) s_iwgrp
    else has (f_mode s) s_iwoth).
 
+(* fchmod(2): the owner of the file and uid 0 only *)
+Definition may_chmod (id : ident) (s : fstat) : bool := (i_euid id =? 0) || (f_uid s =? i_euid id).
+
 (* a file the process creates belongs to its effective uid and gid (no set-group-ID directories here) *)
 Definition fresh_file (id : ident) (mode : N) : fstat := mkf TReg (i_euid id) (i_egid id) mode.
 
 Inductive ores :=
 | OOpened (e' : fobs) (s : fstat)    (* entry afterwards, file the descriptor refers to *)
 | OFail                              (* open fails: EISDIR, ENXIO, EACCES, EEXIST, ELOOP *)
-| OBlock.                            (* a FIFO nobody reads: open for writing never returns *)
+| OBlock                             (* a FIFO nobody reads: open for writing never returns *)
+| OAbandon (e' : fobs).              (* opened (and truncated), then given up: nothing is written *)
 
 Definition open_existing (id : ident) (s : fstat) (e : fobs) : ores :=
   match f_type s with
@@ -236,17 +256,18 @@ Definition open_existing (id : ident) (s : fstat) (e : fobs) : ores :=
   end.
 
 (* open(name, O_WRONLY|O_CREAT[|O_TRUNC|O_APPEND][|O_EXCL][|O_NOFOLLOW], mode) under umask; no O_NONBLOCK.
-   An existing file keeps owner and mode; a dangling symlink is followed and its target created. *)
-Definition fs_open_creat (excl nofollow : bool) (id : ident) (mode : N) (e : fobs) : ores :=
+   An existing file keeps owner and mode (the inode is REUSED); a dangling symlink is followed and its target
+   created; creating needs write permission on the directory (EACCES otherwise). *)
+Definition fs_open_creat (excl nofollow can_create : bool) (id : ident) (mode : N) (e : fobs) : ores :=
   let f := fresh_file id mode in
   if o_symlink e then
     if excl || nofollow then OFail
     else match o_stat e with
-         | None => OOpened (mko true (Some f)) f
+         | None => if can_create then OOpened (mko true (Some f)) f else OFail
          | Some s => open_existing id s e
          end
   else match o_stat e with
-       | None => OOpened (e_file f) f
+       | None => if can_create then OOpened (e_file f) f else OFail
        | Some s => if excl then OFail else open_existing id s e
        end.
 
@@ -262,44 +283,69 @@ Definition log_how := how_of bg_log_how.
 
 Definition set_mode (s : fstat) (m : N) : fstat := mkf (f_type s) (f_uid s) (f_gid s) m.
 
-(* [unlink;] open(O_CREAT) under the recipe's umask [; fchmod] — on any prior state of the entry *)
-Definition create_at (h : how) (r : recipe) (id : ident) (inherited : N) (e : fobs) : ores :=
-  let e1 := if h_unlink h then fs_unlink e else e in
-  match fs_open_creat (h_excl h) (h_nofollow h) id (created_mode (r_req r) (in_force r inherited)) e1 with
+(* what the source does to an old file that it could not unlink and that open() therefore reused, mode and all:
+   Some (base, keep, fatal) = fchmod (fd, base & ~(inherited & keep)), and when that fails (not the owner) either
+   the file is given up (fatal) or used as it is; None = nothing: the old mode stays (GenPath *_rechmod, observed) *)
+Definition rechmod := option (N * N * bool).
+Definition reuse_mode (base keep inherited : N) : N := created_mode base (N.land inherited keep).
+Definition rechmod_step (rc : rechmod) (id : ident) (inherited : N) (e' : fobs) (s : fstat) : ores :=
+  match rc with
+  | None => OOpened e' s
+  | Some (base, keep, fatal) =>
+    if may_chmod id s
+    then let s' := set_mode s (reuse_mode base keep inherited) in OOpened (mko (o_symlink e') (Some s')) s'
+    else if fatal then OAbandon e' else OOpened e' s
+  end.
+
+Definition pid_rechmod (fg : bool) : rechmod := if fg then fg_pid_rechmod else bg_pid_rechmod.
+Definition seed_rechmod (fg : bool) : rechmod := if fg then fg_seed_rechmod else bg_seed_rechmod.
+
+(* [unlink;] open(O_CREAT) under the recipe's umask [; fchmod] — on any prior state of the entry and any
+   permissions on its directory.  stuck = the unlink failed with an errno other than ENOENT. *)
+Definition create_with (rc : rechmod) (h : how) (r : recipe) (id : ident) (inherited : N) (p : dperm) (e : fobs)
+  : ores :=
+  let stuck := h_unlink h && unlink_fails p e in
+  let e1 := if h_unlink h then fs_unlink p e else e in
+  match fs_open_creat (h_excl h) (h_nofollow h) (p_create p) id (created_mode (r_req r) (in_force r inherited)) e1 with
   | OOpened e' s =>
-    match r_chmod r with
-    | Some m => OOpened (mko (o_symlink e') (Some (set_mode s m))) (set_mode s m)
-    | None => OOpened e' s
-    end
+    let e2 := match r_chmod r with Some m => mko (o_symlink e') (Some (set_mode s m)) | None => e' end in
+    let s2 := match r_chmod r with Some m => set_mode s m | None => s end in
+    if stuck then rechmod_step rc id inherited e2 s2 else OOpened e2 s2
   | x => x
   end.
+Definition create_at := create_with None.
 
 (* result of writing a file that is not vital: entry afterwards, the file written (if any), blocked *)
 Record wres := mkw { w_entry : fobs; w_file : option fstat; w_hang : bool }.
 
-(* munged.c write_pidfile after the directory check: a failure is a warning, and the name is unlinked again *)
-Definition pid_write (fg : bool) (id : ident) (inherited : N) (e : fobs) : wres :=
-  match create_at (pid_how fg) (pid_recipe fg) id inherited e with
+(* munged.c write_pidfile after the directory check: a failure is a warning, and the name is unlinked again.
+   rc is a parameter so that the source before and after the repair can both be stated (pid_write = as observed) *)
+Definition pid_write_with (rc : rechmod) (fg : bool) (id : ident) (inherited : N) (p : dperm) (e : fobs) : wres :=
+  match create_with rc (pid_how fg) (pid_recipe fg) id inherited p e with
   | OOpened e' s => mkw e' (Some s) false
-  | OFail => mkw (fs_unlink e) None false
+  | OFail => mkw (fs_unlink p e) None false
+  | OAbandon e' => mkw (fs_unlink p e') None false
   | OBlock => mkw e None true
   end.
+Definition pid_write (fg : bool) := pid_write_with (pid_rechmod fg) fg.
 
 (* random.c _random_write_seed at exit: a failure is a warning *)
-Definition seed_write (fg : bool) (id : ident) (inherited : N) (e : fobs) : wres :=
-  match create_at (seed_how fg) (seed_recipe fg) id inherited e with
+Definition seed_write_with (rc : rechmod) (fg : bool) (id : ident) (inherited : N) (p : dperm) (e : fobs) : wres :=
+  match create_with rc (seed_how fg) (seed_recipe fg) id inherited p e with
   | OOpened e' s => mkw e' (Some s) false
-  | OFail => mkw (if h_unlink (seed_how fg) then fs_unlink e else e) None false
+  | OFail => mkw (if h_unlink (seed_how fg) then fs_unlink p e else e) None false
+  | OAbandon e' => mkw e' None false
   | OBlock => mkw e None true
   end.
+Definition seed_write (fg : bool) := seed_write_with (seed_rechmod fg) fg.
 
 (* munged.c sock_create after the lock: unlink (an error other than ENOENT is fatal), bind under umask 0
    (EADDRINUSE when the name still exists).  None = the daemon dies. *)
-Definition sock_bind (fg : bool) (id : ident) (inherited : N) (e : fobs) : option fobs :=
+Definition sock_bind (fg : bool) (id : ident) (inherited : N) (p : dperm) (e : fobs) : option fobs :=
   let h := sock_how fg in
-  if h_unlink h && unlink_fails e then None
-  else let e1 := if h_unlink h then fs_unlink e else e in
-       if o_symlink e1 || match o_stat e1 with Some _ => true | None => false end then None
+  if h_unlink h && unlink_fails p e then None
+  else let e1 := if h_unlink h then fs_unlink p e else e in
+       if present e1 || negb (p_create p) then None
        else Some (e_file (mkf TSock (i_euid id) (i_egid id) (created (sock_recipe fg) inherited))).
 
 (* lock.c lock_create + _lock_stat: with --force an old lock file is unlinked first; open(O_CREAT) keeps owner
@@ -311,14 +357,14 @@ Inductive lres :=
 | LRefuse (w : why)
 | LHang.
 
-Definition lock_step (fg force : bool) (id : ident) (inherited : N) (e : fobs) : lres :=
+Definition lock_step (fg force : bool) (id : ident) (inherited : N) (p : dperm) (e : fobs) : lres :=
   let h := lock_how fg in
-  let e1 := if force || h_unlink h then fs_unlink e else e in
-  match create_at (mkh false (h_excl h) (h_nofollow h)) (lock_recipe fg) id inherited e1 with
+  let e1 := if force || h_unlink h then fs_unlink p e else e in
+  match create_at (mkh false (h_excl h) (h_nofollow h)) (lock_recipe fg) id inherited p e1 with
   | OOpened e' s =>
     if is_reg s && (f_mode s =? s_iwusr) && (f_uid s =? pick_uid lock_owner_id id)
     then LLocked e' s else LRefuse WLock
-  | OFail => if force then LNoLock e1 else LRefuse WCreate
+  | OFail | OAbandon _ => if force then LNoLock e1 else LRefuse WCreate
   | OBlock => LHang
   end.
 
@@ -330,10 +376,10 @@ Definition lock_file (l : lres) : option fstat :=
   match l with LLocked _ s => Some s | _ => None end.
 
 (* munged.c open_logfile after the checks: fopen(name, "a") *)
-Definition log_open (id : ident) (inherited : N) (e : fobs) : ores :=
-  create_at log_how log_recipe id inherited e.
+Definition log_open (id : ident) (inherited : N) (p : dperm) (e : fobs) : ores :=
+  create_at log_how log_recipe id inherited p e.
 Definition open_why (r : ores) : option why :=
-  match r with OOpened _ _ => None | OFail => Some WCreate | OBlock => Some WHang end.
+  match r with OOpened _ _ => None | OFail | OAbandon _ => Some WCreate | OBlock => Some WHang end.
 
 (* munged.c sock_create up to the lock *)
 Definition sock_check (force : bool) (id : ident) (tg : N) (leaf : fobs) (chain : list dstat) : option why :=
@@ -363,12 +409,35 @@ Definition tag (s : site) (w : option why) : option (site * why) :=
 Fixpoint first_some {A} (l : list (option A)) : option A :=
   match l with [] => None | Some x :: _ => Some x | None :: r => first_some r end.
 
+(* permissions of the process in the directory that holds a name (chain: that directory first).  Write
+   permission by owner/group/other class (the harness drops all supplementary groups; search permission is
+   taken for granted: without it nothing at the name could be looked at); in a sticky directory a name is
+   removed only by the owner of the directory or of the file (a symlink's own owner is not in the model) *)
+Definition dir_writable (id : ident) (d : dstat) : bool :=
+  (i_euid id =? 0) ||
+  (if d_uid d =? i_euid id then has (d_mode d) s_iwusr
+   else if d_gid d =? i_egid id then has (d_mode d) s_iwgrp
+   else has (d_mode d) s_iwoth).
+Definition sticky_allows (id : ident) (d : dstat) (e : fobs) : bool :=
+  (i_euid id =? 0) || negb (has (d_mode d) s_isvtx) || (d_uid d =? i_euid id) ||
+  (negb (o_symlink e) && match o_stat e with Some s => f_uid s =? i_euid id | None => false end).
+Definition perm_at (id : ident) (chain : list dstat) (e : fobs) : dperm :=
+  match chain with
+  | [] => all_perm
+  | d :: _ => mkp (dir_writable id d && sticky_allows id d e) (dir_writable id d)
+  end.
+
 Definition seed_of (c : config) : seedres :=
-  seed_step (c_force c) (c_id c) (c_tg c) (c_seed c) (c_seeddir c).
-Definition log_of (c : config) : ores := log_open (c_id c) (c_umask c) (c_log c).
-Definition lock_of (c : config) : lres := lock_step (c_fg c) (c_force c) (c_id c) (c_umask c) (c_lock c).
-Definition bind_of (c : config) : option fobs := sock_bind (c_fg c) (c_id c) (c_umask c) (c_sock c).
-Definition pid_of (c : config) : wres := pid_write (c_fg c) (c_id c) (c_umask c) (c_pid c).
+  seed_step (c_force c) (c_id c) (c_tg c) (p_remove (perm_at (c_id c) (c_seeddir c) (c_seed c)))
+            (c_seed c) (c_seeddir c).
+Definition log_of (c : config) : ores :=
+  log_open (c_id c) (c_umask c) (perm_at (c_id c) (c_logdir c) (c_log c)) (c_log c).
+Definition lock_of (c : config) : lres :=
+  lock_step (c_fg c) (c_force c) (c_id c) (c_umask c) (perm_at (c_id c) (c_sockdir c) (c_lock c)) (c_lock c).
+Definition bind_of (c : config) : option fobs :=
+  sock_bind (c_fg c) (c_id c) (c_umask c) (perm_at (c_id c) (c_sockdir c) (c_sock c)) (c_sock c).
+Definition pid_of (c : config) : wres :=
+  pid_write (c_fg c) (c_id c) (c_umask c) (perm_at (c_id c) (c_piddir c) (c_pid c)) (c_pid c).
 
 (* None = the daemon starts; Some (site, why) = it exits (or, WHang, blocks) with that first complaint *)
 Definition startup (c : config) : option (site * why) :=
@@ -399,7 +468,8 @@ Definition after_start (c : config) : after :=
 Definition seed_at_exit (c : config) : fobs :=
   if sr_removed (seed_of c) then e_absent else c_seed c.
 Definition seed_written (c : config) : wres :=
-  if sr_keep (seed_of c) then seed_write (c_fg c) (c_id c) (c_umask c) (seed_at_exit c)
+  if sr_keep (seed_of c)
+  then seed_write (c_fg c) (c_id c) (c_umask c) (perm_at (c_id c) (c_seeddir c) (seed_at_exit c)) (seed_at_exit c)
   else mkw (seed_at_exit c) None false.
 Definition seed_after (c : config) : fobs := w_entry (seed_written c).
 
